@@ -63,8 +63,8 @@ def run(ctx):
     ctx.rule('C02.R7', 'every successful non-dry-run exit of run_bisync passes Archive::save (stale base entries are dropped there)', floor=1)
     bs = deletes_only_on_delete_arms(ctx, F, 'C02.R1')
     ctx.rule('C02.R8', 'the plan applied is exactly the value reconcile() returned (no filtering between decision and apply)', floor=1)
-    bs.every_success_records(ctx, 'C02.R7')
-    bs.plan_is_reconcile_result(ctx, 'C02.R8')
+    ctx.attempt(bs.every_success_records, ctx, 'C02.R7')
+    ctx.attempt(bs.plan_is_reconcile_result, ctx, 'C02.R8')
     fl = bs.afl
     cfg = fl.cfg
     copies = bs.copy_sites()
@@ -128,9 +128,9 @@ def run(ctx):
                   'the loser is overwritten before it was preserved on both sides (preserving copies that guard the overwrite: roots %s of %s)' % (
                       sorted(map(str, groots)), sorted(map(str, roots))), term_loc(bs.apply, cb))
     # ---- R4
-    side_rules(ctx, bs, copies)
+    ctx.attempt(side_rules, ctx, bs, copies)
     # ---- R5
-    archive_taint(ctx, bs)
+    ctx.attempt(archive_taint, ctx, bs)
     # ---- R6
     from rules import C18
     leaves = C18.table_of(ctx, F, 'C02.R6')
